@@ -126,6 +126,126 @@ def xml_message(entries):
     return "\n".join(body)
 
 
+HISTORY_WORKER = r"""
+import io, json, os, sys, time
+cfg = json.loads(sys.argv[1])
+net = {"n": 0}
+import urllib.request, socket
+def fake_urlopen(url, *a, **k):
+    net["n"] += 1
+    raise OSError("network blocked by the C16 check")
+urllib.request.urlopen = fake_urlopen
+def no_connect(self, *a, **k):
+    net["n"] += 1
+    raise OSError("network blocked by the C16 check")
+socket.socket.connect = no_connect
+socket.socket.connect_ex = no_connect
+import requests
+requests.get = requests.post = requests.Session.request = lambda *a, **k: fake_urlopen(None)
+from pyorbital import tlefile
+tlefile.urlopen = fake_urlopen
+os.environ["TLES"] = cfg["pattern"]
+steps = []
+def newest():
+    best = None
+    for p in cfg["files"]:
+        if os.path.exists(p):
+            c = os.stat(p).st_ctime_ns
+            if best is None or c > best[0]:
+                best = (c, p)
+    return best[1]
+def do_read(kind):
+    exp_file = newest()
+    kw = {}
+    if kind == "lines":
+        kw = {"line1": cfg["given"][0], "line2": cfg["given"][1]}
+    elif kind == "path":
+        kw = {"tle_file": cfg["path_file"]}
+    n0 = net["n"]
+    try:
+        t = tlefile.read(cfg["platform"], **kw)
+        got = int(t.orbit)
+        exn = None
+    except BaseException as e:
+        got, exn = None, type(e).__name__ + ": " + str(e)[:120]
+    want = {"lines": cfg["given_rev"], "path": cfg["path_rev"]}.get(kind, cfg["revs"].get(exp_file))
+    steps.append({"op": "read:" + kind, "expected_rev": want, "observed_rev": got, "exception": exn,
+                  "newest_by_ctime": os.path.basename(exp_file), "network_calls": net["n"] - n0})
+for op in cfg["ops"]:
+    if op[0] == "read":
+        do_read(op[1])
+    elif op[0] == "touch":
+        time.sleep(0.06)
+        p = cfg["files"][op[1]]
+        st = os.stat(p)
+        os.utime(p, (st.st_atime, st.st_mtime))       # change time moves, modification time stays
+        steps.append({"op": "touch:" + os.path.basename(p)})
+    elif op[0] == "rewrite":
+        time.sleep(0.06)
+        p = cfg["files"][op[1]]
+        with open(p) as f:
+            text = f.read()
+        with open(p, "w") as f:
+            f.write(text)
+        steps.append({"op": "rewrite:" + os.path.basename(p)})
+sys.stdout.write("\n@@RESULT@@" + json.dumps({"steps": steps}) + "\n")
+"""
+
+
+def history_stratum(ctx, root, given):
+    """One interpreter, a SEQUENCE of reads with the TLES pattern set while the matching files' change times move in
+    between (and explicit lines / a given file in between): every read must come from the file that is newest by change time
+    at that moment, and none may touch the network."""
+    rng = ctx.rng
+    wpath = os.path.join(root, "history_worker.py")
+    with open(wpath, "w") as fh:
+        fh.write(HISTORY_WORKER)
+    for hi in range(ctx.n(3, 12)):
+        d = os.path.join(root, "hist%d" % hi)
+        os.makedirs(d)
+        files, revs = [], {}
+        for k, nm in enumerate(["tle-a.txt", "tle-b.txt", "tle-c.txt"]):
+            p = os.path.join(d, nm)
+            rev = 100 * (hi + 1) + k
+            with open(p, "w") as fh:
+                fh.write(collection([entry("ISS (ZARYA)", OTHER, rev), entry("NOAA 19", SATNUM, rev)]))
+            files.append(p)
+            revs[p] = rev
+            time.sleep(0.03)
+        path_file = os.path.join(d, "given.tle")
+        with open(path_file, "w") as fh:
+            fh.write(collection([entry("NOAA 19", SATNUM, 77)]))
+        ops = [("read", "tles")]
+        for _ in range(rng.randint(3, 6)):
+            ops.append((rng.choice(["touch", "touch", "rewrite"]), rng.randrange(3)))
+            if rng.random() < 0.3:
+                ops.append(("read", rng.choice(["lines", "path"])))
+            ops.append(("read", "tles"))
+        g1, g2 = given
+        cfg = {"pattern": os.path.join(d, "tle-*.txt"), "files": files, "revs": revs, "ops": ops, "platform": PLATFORM,
+               "given": [g1, g2], "given_rev": int(g2[63:68]), "path_file": path_file, "path_rev": 77}
+        env = dict(os.environ, PYTHONPATH=common.REPO)
+        for k in ("TLES", "PYORBITAL_CONFIG_PATH", "PPP_CONFIG_DIR"):
+            env.pop(k, None)
+        res = run_worker(wpath, cfg, env)
+        ctx.case(("history", hi), {"ops": [":".join(map(str, o)) for o in ops]} if hi == 0 else None)
+        if res.get("worker_failed"):
+            ctx.corr_fail("history worker interpreter for tlefile.read", res)
+            continue
+        seen = []
+        for st in res["steps"]:
+            seen.append(st["op"] if not st["op"].startswith("read") else "%s -> rev %s" % (st["op"], st.get("observed_rev")))
+            if not st["op"].startswith("read"):
+                continue
+            if st["observed_rev"] != st["expected_rev"] or st["network_calls"]:
+                what = ("a network request was made although a local source is configured" if st["network_calls"] else
+                        "elements are not taken from the newest (by change time) file matching TLES" if st["op"] == "read:tles" else
+                        "explicit lines / a given file did not take precedence over TLES")
+                ctx.violation(what + " (later read in the same process)",
+                              {"signature": "C16:history:%d:%d" % (hi, len(seen)), "history_in_one_process": list(seen), **st})
+                break
+
+
 def build_fixtures(root):
     """one tree per flavour: has/ (every source holds NOAA-19, revolution number = source code + 1) and
     absent/ (every source holds only satellite 25544)"""
@@ -261,7 +381,7 @@ def coq_table():
     return rows, out
 
 
-def run_worker(worker_path, cfg, env):
+def run_worker(worker_path, cfg, env):  # noqa
     p = subprocess.run([common.PY, "-W", "ignore", worker_path, json.dumps(cfg)], env=env, stdout=subprocess.PIPE,
                        stderr=subprocess.PIPE, text=True, timeout=120)
     m = re.search(r"@@RESULT@@(.*)", p.stdout)
@@ -408,5 +528,6 @@ def run(ctx):
                 ctx.corr_fail("M_Source.read_tle/platforms_of vs tlefile.read in a fresh interpreter",
                               {**desc, "model": model, "impl": impl, "touched": sorted(touched), "stray_files": stray,
                                "exception": res.get("exn"), "msg": res.get("msg")})
+        history_stratum(ctx, root, given["has"])
     finally:
         shutil.rmtree(root, ignore_errors=True)
